@@ -71,7 +71,12 @@ class Mutator:
         self.sampler = sampler
         self.periodic = periodic
         self.reflective = reflective
-        self.have_blobs = have_blobs
+        self._have_blobs = have_blobs
+
+    @property
+    def have_blobs(self) -> bool:
+        """Blobs are handled when declared (blobs_dtype) or returned by the likelihood."""
+        return self._have_blobs or self.state.get_current("blobs") is not None
 
     def run(self, mode_stats: ModeStatistics) -> None:
         """
